@@ -673,8 +673,9 @@ class Replayer:
         specification computed, the same calls are made on a never-pickled twin (a fresh instance with its own
         file): if the twin deviates in the same way, the deviation is not due to serialisation (the class departs
         from the model of Lifecycle.tla with or without pickling, e.g. a cache-transparency defect) - it is
-        recorded in the evidence and is not a violation of C20.  Not used when both worlds share one file."""
-        if self.file_mode == "shared" and sig.get("after_pickle") and self.config.startswith("hdf"):
+        recorded in the evidence and is not a violation of C20.  Not used for a world whose file was written by
+        the other world (the twin has a file of its own)."""
+        if sig.get("stale_index"):
             return False
         ad = self.ad
         twin = None
